@@ -18,7 +18,25 @@ ASSUMPTIONS = ["regular-expression matching is an oracle recorded from `re` for 
 PATTERNS = [r"^\d+$", r"^k\d$", r"^[a-z]$", r"^(id|name)$", r"\d", r"^.*$", r"^x", r"^k\d$|^meta$"]
 
 
+def directed_case(rng):
+    """(a) the same key set as the value of a dict-keys field first and at ordinary positions later, with a regex
+    configured that matches none of it; (b) a key set covered only jointly by two patterns"""
+    if rng.random() < 0.5:
+        f = rng.choice(gen.WORDS)
+        a, b = rng.sample(["u", "v", "w", "left", "right"], k=2)
+        first = {f: {a: 1, b: 2}, "later": {a: 3, b: 4}, "deep": {"inner": {a: 5, b: 6}, "n": 1}}
+        if rng.random() < 0.3:
+            first = {"early": {a: 0, b: 0}, **first}
+        samples = [first] + ([{f: {a: 7, b: 8}, "later": {a: 9, b: 1}}] if rng.random() < 0.5 else [])
+        return samples, [f], rng.sample([r"^\d+$", r"^k\d$", r"^x"], k=rng.choice([1, 2]))
+    obj = {"k1": 1, "id": 2} if rng.random() < 0.5 else {"k1": 1, "k2": 2, "name": "n"}
+    sample = {"data": dict(obj), "plain": {"k1": 1, "k2": 2}, "meta": {"id": 1, "name": "x"}, "mixed": [dict(obj)]}
+    return [sample], rng.sample(gen.WORDS, k=rng.choice([0, 1])), [r"^k\d$", r"^(id|name)$"]
+
+
 def gen_case(rng):
+    if rng.random() < 0.12:
+        return directed_case(rng)
     samples = gen.gen_sample_family(rng) if rng.random() < .5 else gen.gen_samples(rng)
     if rng.random() < 0.5:
         # objects keyed by digits / ids somewhere
